@@ -65,10 +65,25 @@ Theorem C16_roundtrip_row : forall d ls cols cells, rdesc_wf d = true ->
   gen_deser_row_by_name ls cols cells = Ok (map rback_value ls).
 Proof. exact roundtrip_row_by_name. Qed.
 
-Theorem C16_excess_missing_ser_row : forall d cols, rdesc_wf d = true ->
+(* KNOWN FINDING (docs/C16.md, class row-empty-flatten-hides-missing): with an EMPTY struct
+   flattened into the struct the generated check_missing can return Ok although a column is
+   missing.  Full-strength statement (refuted by the witness below):
+     forall d cols, nodupb (map rl_name (rd_leaves d)) = true ->
+       outcome_of (gen_ser_row_by_name d cols) = doc_ser_row_by_name d cols.
+   Proved: the statement for every descriptor without an empty flattened struct.  (The class the
+   driver tags, [known_empty_flatten d cols], is narrower than [has_empty_flatten d]: it also asks
+   that every column is bound and some field has no column; the theorem for descriptors WITH an empty
+   flattened struct on inputs outside that narrower class is not proved.) *)
+Theorem C16_excess_missing_ser_row_partial : forall d cols,
+  nodupb (map rl_name (rd_leaves d)) = true -> has_empty_flatten d = false ->
   outcome_of (gen_ser_row_by_name d cols) = doc_ser_row_by_name d cols /\
   gen_ser_row_by_name d cols <> Err EPanic.
-Proof. exact ser_row_by_name_doc. Qed.
+Proof. exact ser_row_by_name_doc'. Qed.
+
+Theorem C16_excess_missing_ser_row_refuted : exists d cols,
+  nodupb (map rl_name (rd_leaves d)) = true /\ known_empty_flatten d cols = true /\
+  gen_ser_row_by_name d cols = Ok [] /\ doc_ser_row_by_name d cols = Reject.
+Proof. exact ser_row_empty_flatten_refuted. Qed.
 
 Theorem C16_excess_missing_typeck_row : forall ls cols,
   NoDup (map rl_name (filter (fun f => negb (rl_skip f)) ls)) ->
@@ -113,6 +128,39 @@ Proof. exact ordered_exact_row. Qed.
 Theorem C16_ordered_ser_row : forall d cols, rordered_plain d = true ->
   outcome_of (gen_ser_row_ordered d cols) = doc_ser_row_ordered d cols.
 Proof. exact ser_row_ordered_doc. Qed.
+
+Theorem C16_ordered_deser_value : forall d db cells, vordered_plain d = true ->
+  NoDup (map vf_name (nonskipped (vd_fields d))) -> doc_typeck_value_ordered d db = true ->
+  outcome_of (gen_deser_value_ordered d db cells) =
+    match all_some (map (fun f => doc_field_value f (udt_items db cells)) (vd_fields d)) with
+    | Some vs => Accept vs
+    | None => Reject
+    end /\
+  gen_deser_value_ordered d db cells <> Err EPanic.
+Proof. exact deser_value_ordered_doc. Qed.
+
+Theorem C16_ordered_deser_row : forall ls cols cells,
+  NoDup (map rl_name (filter (fun f => negb (rl_skip f)) ls)) ->
+  List.length cells = List.length cols -> doc_typeck_row_ordered ls cols = true ->
+  outcome_of (gen_deser_row_ordered false ls cols cells) =
+    match all_some (map (fun f => doc_row_field_value f (combine cols cells)) ls) with
+    | Some vs => Accept vs
+    | None => Reject
+    end /\
+  gen_deser_row_ordered false ls cols cells <> Err EPanic.
+Proof. exact deser_row_ordered_doc. Qed.
+
+(* enforce_order WITH allow_missing fields (names checked): whatever is accepted is the values of a
+   subsequence of the struct's fields that contains every field not marked allow_missing, matched
+   one to one, in order, against a prefix of the DB fields.  (Soundness only; that the generated
+   code picks the LONGEST such subsequence is covered by the tie, not by a theorem.) *)
+Theorem C16_ordered_allow_missing_sound : forall d db cells, vd_snc d = false ->
+  gen_ser_value_ordered d db = Ok cells ->
+  exists used p rest, subseq used (nonskipped (vd_fields d)) /\
+    (forall f, In f (nonskipped (vd_fields d)) -> ~ In f used -> vf_am f = true) /\
+    db = p ++ rest /\ map fst p = map vf_name used /\ cells = map vf_val used /\
+    (vd_forbid d = true -> rest = []).
+Proof. exact ser_value_ordered_am_sound. Qed.
 
 (* round trip in the ordered flavor, for EVERY descriptor (allow_missing and skip_name_checks
    included): every field comes back as its value, or as Default if it is skipped or was an
@@ -197,12 +245,16 @@ Print Assumptions C16_excess_missing_typeck_value.
 Print Assumptions C16_excess_missing_deser_value.
 Print Assumptions C16_by_name_ser_row.
 Print Assumptions C16_roundtrip_row.
-Print Assumptions C16_excess_missing_ser_row.
+Print Assumptions C16_excess_missing_ser_row_partial.
+Print Assumptions C16_excess_missing_ser_row_refuted.
 Print Assumptions C16_excess_missing_typeck_row.
 Print Assumptions C16_excess_missing_deser_row.
 Print Assumptions C16_ordered_typeck_value.
 Print Assumptions C16_ordered_ser_value.
 Print Assumptions C16_ordered_typeck_row.
 Print Assumptions C16_ordered_ser_row.
+Print Assumptions C16_ordered_deser_value.
+Print Assumptions C16_ordered_deser_row.
+Print Assumptions C16_ordered_allow_missing_sound.
 Print Assumptions C16_roundtrip_ordered_value.
 Print Assumptions C16_roundtrip_ordered_row.
